@@ -28,6 +28,14 @@ func checkC11(w *World, r *Report) {
 	r.Rule("R11.8", "the downstream fragment size recorded as working is the very value that was probed", 1)
 	r.Rule("R11.7", "the upstream fragment size is recomputed after the last change of the upstream codec", 1)
 	r.Rule("R11.6", "the committed query type passed its probe", 1)
+	r.Rule("R11.13", "a codec detection step never stores a codec whose probe failed on that path, and never returns (connection open) without having stored one", 2)
+	c11CodecCommitFollowsItsProbe(w, r)
+	r.Rule("R11.12", "a fragment of every size below the negotiated one makes a valid name: the dot inserter never leaves an empty label", 1)
+	if dot := w.SSAFunc(w.Func("internal/streams/dns/util", "Dotify")); dot == nil {
+		r.Undecided("R11.12", "func:util.Dotify", "-", "anchor unresolved")
+	} else {
+		ruleDotify(w, r, "R11.12", dot)
+	}
 	r.Rule("R11.11", "the server decodes what the probed codec sent: the regular expressions of the name unescaper are anchored (an unanchored one corrupts only names the probe pattern does not contain)", 1)
 	ruleUnescaperRegexpsAnchored(w, r, "R11.11")
 	r.Rule("R11.10", "the step that commits a probed value (the fragment-size switch) reports a failed exchange with the server as a failure", 1)
